@@ -4,5 +4,6 @@ CONSTANTS
  SemInit = 0
  SigInit = FALSE
  AllowSpurious = TRUE
-INVARIANTS MutexOK SemOK MonitorOK UntimedWaitsSucceed
+ FixSignalGen = TRUE
+INVARIANTS SetReleasesAll MutexOK SemOK MonitorOK UntimedWaitsSucceed
 PROPERTY Termination
